@@ -50,6 +50,7 @@ func newRouteRegexp(path string) (*routeRegexp, error) {
 	defaultPattern := "[^/]+"
 	varsN := make([]string, len(idxs)/2)
 	varsR := make([]*regexp.Regexp, len(idxs)/2)
+	literals := make([]string, 0, len(idxs)/2+1)
 	pattern := bytes.NewBufferString("")
 	pattern.WriteByte('^')
 	reverse := bytes.NewBufferString("")
@@ -58,6 +59,7 @@ func newRouteRegexp(path string) (*routeRegexp, error) {
 	for i := 0; i < len(idxs); i += 2 {
 		// Set all values we are interested in.
 		raw := path[end:idxs[i]]
+		literals = append(literals, raw)
 		end = idxs[i+1]
 		parts := strings.SplitN(path[idxs[i]+1:end-1], ":", 2)
 		name := parts[0]
@@ -85,6 +87,7 @@ func newRouteRegexp(path string) (*routeRegexp, error) {
 	}
 	// Add the remaining.
 	raw := path[end:]
+	literals = append(literals, raw)
 	pattern.WriteString(regexp.QuoteMeta(raw))
 
 	pattern.WriteByte('$')
@@ -108,6 +111,7 @@ func newRouteRegexp(path string) (*routeRegexp, error) {
 		reverse:  reverse.String(),
 		varsN:    varsN,
 		varsR:    varsR,
+		literals: literals,
 	}, nil
 }
 
@@ -125,6 +129,28 @@ type routeRegexp struct {
 	varsN []string
 	// Variable regexps (validators).
 	varsR []*regexp.Regexp
+	// Literal text before every variable and after the last one.
+	literals []string
+}
+
+// matchString reports whether the route matches the whole path. The regexp package reads
+// every ill-formed UTF-8 byte of the path as U+FFFD, so the literal parts are compared byte for byte.
+func (route *routeRegexp) matchString(path string) bool {
+	if len(route.varsN) == 0 {
+		return path == route.template
+	}
+	m := route.regexp.FindStringSubmatchIndex(path)
+	if m == nil {
+		return false
+	}
+	pos := 0
+	for i := range route.varsN {
+		if path[pos:m[2*i+2]] != route.literals[i] {
+			return false
+		}
+		pos = m[2*i+3]
+	}
+	return path[pos:] == route.literals[len(route.varsN)]
 }
 
 // varGroupName builds a capturing group name for the indexed variable.
